@@ -1,7 +1,7 @@
 (* Independent reference side for the AC bodies, transcribed from the vendor layout
    (reference/T_0000_AC_00000Q14_2024013001.lua: control encoder 3286-3445 with the keyB constants 221-311,
    status decoder 1664-1836; DESIGN.md Appendix B), NOT from the Python. *)
-From MS Require Import lib.Base.
+From MS Require Import lib.Base gen.GenDev.
 
 Definition bitb (v : N) (k : N) : bool := N.testbit v k.
 
@@ -42,3 +42,56 @@ Definition request_eqb (a b : request) : bool :=
   && Bool.eqb (q_purifier a) (q_purifier b) && Bool.eqb (q_aux_heat a) (q_aux_heat b)
   && Bool.eqb (q_sleep a) (q_sleep b) && Bool.eqb (q_fahrenheit a) (q_fahrenheit b)
   && (q_humidity a =? q_humidity b) && Bool.eqb (q_freeze a) (q_freeze b) && Bool.eqb (q_indep_aux a) (q_indep_aux b).
+
+(* ---------------- what a 0xC0 status body reports (vendor decode, Lua 1664-1836; Appendix B) ---------------- *)
+Record report := {
+  p_power : bool; p_target : N (* half degrees *); p_mode : N; p_fan : N; p_swing : N;
+  p_turbo : bool; p_eco : bool; p_sleep : bool; p_fahrenheit : bool; p_follow_me : bool; p_purifier : bool;
+  p_filter : bool; p_display_on : bool; p_aux : bool; p_indep_aux : bool;
+  p_indoor_raw : N; p_indoor_digit : N; p_outdoor_raw : N; p_outdoor_digit : N;
+  p_humidity : option N;     (* present from 20 bytes *)
+  p_freeze : option bool     (* present from 22 bytes *)
+}.
+
+Definition ref_report (b : bytes) : option report :=
+  if (length b <? 16)%nat then None else
+  let g := nthb b in
+  let alt := N.land (g 13%nat) 31 in
+  let whole := if alt =? 0 then N.land (g 2%nat) 15 + 16 else alt + 12 in
+  Some {| p_power := bitb (g 1%nat) 0;
+          p_target := 2 * whole + (if bitb (g 2%nat) 4 then 1 else 0);
+          p_mode := N.shiftr (g 2%nat) 5;
+          p_fan := N.land (g 3%nat) 127;
+          p_swing := N.land (g 7%nat) 15;
+          p_turbo := bitb (g 8%nat) 5 || bitb (g 10%nat) 1;
+          p_eco := bitb (g 9%nat) 4; p_sleep := bitb (g 10%nat) 0; p_fahrenheit := bitb (g 10%nat) 2;
+          p_follow_me := bitb (g 8%nat) 7; p_purifier := bitb (g 9%nat) 5;
+          p_filter := bitb (g 13%nat) 5;
+          p_display_on := negb (N.land (N.shiftr (g 14%nat) 4) 7 =? 7);
+          p_aux := bitb (g 9%nat) 3; p_indep_aux := bitb (g 8%nat) 6;
+          p_indoor_raw := g 11%nat; p_indoor_digit := N.land (g 15%nat) 15;
+          p_outdoor_raw := g 12%nat; p_outdoor_digit := N.shiftr (g 15%nat) 4;
+          p_humidity := if (length b <? 20)%nat then None else Some (N.land (g 19%nat) 127);
+          p_freeze := if (length b <? 22)%nat then None else Some (bitb (g 21%nat) 7) |}.
+
+(* the attributes a client must expose for a report (documented enum defaulting: an unknown mode / swing code is
+   shown as the enumeration's default; devices with custom fan speeds expose the raw percentage) *)
+Record view := {
+  v_power : bool; v_target : N; v_mode : N; v_fan : N; v_swing : N;
+  v_eco : bool; v_turbo : bool; v_freeze : option bool; v_sleep : bool; v_fahrenheit : bool;
+  v_display : bool; v_filter : bool; v_follow_me : bool; v_purifier : bool;
+  v_humidity : option N; v_aux_mode : N
+}.
+
+Definition member (x : N) (l : list N) : bool := existsb (N.eqb x) l.
+
+(* what the reference says must be exposed for a report *)
+Definition expected_view (custom_fan : bool) (r : report) : view := {|
+  v_power := p_power r; v_target := p_target r;
+  v_mode := if member (p_mode r) OperationalMode_values then p_mode r else OperationalMode_DEFAULT;
+  v_fan := if custom_fan then p_fan r else if member (p_fan r) FanSpeed_values then p_fan r else FanSpeed_DEFAULT;
+  v_swing := if member (p_swing r) SwingMode_values then p_swing r else SwingMode_DEFAULT;
+  v_eco := p_eco r; v_turbo := p_turbo r; v_freeze := p_freeze r; v_sleep := p_sleep r;
+  v_fahrenheit := p_fahrenheit r; v_display := p_display_on r; v_filter := p_filter r;
+  v_follow_me := p_follow_me r; v_purifier := p_purifier r; v_humidity := p_humidity r;
+  v_aux_mode := if p_indep_aux r then AuxHeatMode_AUX_ONLY else if p_aux r then AuxHeatMode_AUX_HEAT else AuxHeatMode_OFF |}.
